@@ -113,6 +113,14 @@ def undefined_element_ids():
             for y in range(1, 192) if (x * 1000 + y) not in d]
 
 
+def special_undefined_element_ids():
+    """undefined element ids at the edges of the id space and in the classes the library treats specially
+    (0, 1-9, 31, 33, local Y >= 192, X = 63): 000000 looks like zero padding, 031255 like a replication factor"""
+    d = all_defined_ids()
+    cand = [0, 255, 1255, 2250, 8250, 9255, 12250, 12255, 31255, 31250, 33255, 33250, 48000, 63000, 63250, 63255]
+    return [x for x in cand if x not in d]
+
+
 def undefined_sequence_ids():
     d = all_defined_ids()
     return [300000 + x * 1000 + y for x in (41, 42, 43, 44, 45, 46, 47, 30, 33)
